@@ -83,10 +83,10 @@ type OrLabelMatcher struct {
 
 // Process implements Processor.
 func (m *OrLabelMatcher) Process(ts otelstorage.Timestamp, line string, set LabelSet) (_ string, keep bool) {
-	line, keep = m.Left.Process(ts, line, set)
-	if keep {
-		return line, keep
+	if left, keep := m.Left.Process(ts, line, set); keep {
+		return left, keep
 	}
+	// Left rejected the record: evaluate Right on the original line, not on Left's output.
 	return m.Right.Process(ts, line, set)
 }
 
